@@ -135,10 +135,14 @@ pub fn crate_task<P: 'static, R: 'static, F: FnOnce(P) -> R>(
             let result: &'static mut std::io::Result<R> = Box::leak(Box::new(
                 std::panic::catch_unwind(std::panic::AssertUnwindSafe(|| (data.0)(data.1)))
                     .map_err(|e| {
-                        Error::other(
-                            e.downcast_ref::<&'static str>()
-                                .map_or("task failed without message", |msg| *msg),
-                        )
+                        if let Some(msg) = e.downcast_ref::<&'static str>() {
+                            Error::other(*msg)
+                        } else if let Some(msg) = e.downcast_ref::<String>() {
+                            // formatted panics carry a `String`
+                            Error::other(msg.clone())
+                        } else {
+                            Error::other("task failed without message")
+                        }
                     }),
             ));
             std::ptr::from_mut(result).cast::<c_void>() as usize
